@@ -11,7 +11,7 @@
       matrix: ((names ("a" ...)) (matrix ((q ...) ...)))
       avg   : ((err msg) (names (...)) (matrix (...)))
       cut   : ((err msg) (bags (("a" ...) ...)))
-    Correspondence: names, every cell (exactly; for the average within 1e-9) and the list of
+    Correspondence: names, every cell (exactly; for the average, a quotient, within a relative 2^-50) and the list of
     bags in order equal those of Model/Matrix.v.  Oracle (Spec/Obs.v, Spec/Cut.v): the cells
     are the path sums [pairdists w], rows in tip-name order, symmetric, zero diagonal; the
     average is the entrywise mean of the path-sum matrices; the bags are, as a set of sets,
@@ -53,9 +53,12 @@ Definition dec_matrix (s : sexp) : option (list (list Q)) := dec_list (dec_list 
 
 Definition qmat_eqb (a b : list (list Q)) : bool := list_eqb (list_eqb qeqb) a b.
 
-Definition eps : Q := (1 # 1000000000)%Q.
+(** only for quotients (the average divides by the number of trees; the sums are exact): Go's
+    float is the rounding of the model's rational, so the two differ by at most a relative
+    2^-53; accepted: a relative 2^-50 (no absolute tolerance: branch lengths may be tiny) *)
+Definition qabs (a : Q) : Q := if Qle_bool 0 a then a else (- a)%Q.
 Definition qclose (a b : Q) : bool :=
-  Qle_bool (a - b)%Q eps && Qle_bool (b - a)%Q eps.
+  Qle_bool (qabs (a - b) * (1125899906842624 # 1))%Q (qabs a + qabs b)%Q.
 Definition qmat_close (a b : list (list Q)) : bool := list_eqb (list_eqb qclose) a b.
 
 Definition spec_matrix (m : metric) (t : utree) : option (list (list Q)) :=
